@@ -50,6 +50,9 @@ fn copy_atomic(src: &Path, dst: &Path) -> std::io::Result<()> {
     tmp.push(".copia-tmp");
     let tmp = PathBuf::from(tmp);
     std::fs::copy(src, &tmp)?;
+    // Flush the staged bytes before the rename makes them visible and before the
+    // archive can record them (commit-then-record needs the data to be durable).
+    std::fs::File::open(&tmp)?.sync_all()?;
     std::fs::rename(&tmp, dst)
 }
 
